@@ -44,9 +44,9 @@ Definition spec_check (b : Board) : list bool :=
                       && Bool.eqb (is_capture m) (is_capture_move p (move_of m))) em;
     wfb b && forallb (move_okb b) (get_all_moves b);
     (* the rules-level side conditions: informational (probe positions may violate them on purpose) *)
-    wf_full b;
+    wf_rules b;
     (* ... and they are preserved by every legal move *)
-    negb (wf_full b) || forallb (fun m => wf_full (make_move b m)) em ].
+    negb (wf_rules b) || forallb (fun m => wf_rules (make_move b m)) em ].
 
 From Coq Require Import String.
 From RCE Require Import model.Fen.
